@@ -144,7 +144,7 @@ def jobs(tier):
     if tier == "quick":
         mixm = [(True, False, 2, "mix")]
         plan = [  # history, fr_max, arc_max, modes, symbolic ard?
-            (("send", "send"), 0, 2, mixm, False), (("send", "resend"), 0, 2, mixm, False), (("send", "send", "send"), 0, 1, mixm, False),
+            (("send", "send"), 0, 2, mixm, False), (("send", "resend"), 0, 2, mixm, False), (("send", "send", "send"), 0, 1, mixm, False), (("send", "send", "resend"), 0, 1, mixm, False),
             (("send",), 1, 15, modes, False), (("send",), 3, 5, modes, False), (("send",), 1, 3, [base, modes[4]], True),
             (("send", "send"), 1, 4, modes, False), (("send", "resend"), 1, 4, modes, False),
             (("sendlist",), 1, 4, modes, False), (("resend",), 0, 3, [base], False),
